@@ -6,12 +6,6 @@ import ESV.Comp.FrontW13
 namespace ESV.Comp
 open ESV ESV.Beh
 
-/-- F0 programs: no macros, routines numbered 0, 1, 2, … in source order, straight-line bodies -/
-def F0Prog (p : Program) : Prop :=
-  p.macros = [] ∧ seqFrom p.routines 0 = true ∧ ∀ r ∈ p.routines, f0Stmts r.body = true
-
-instance (p : Program) : Decidable (F0Prog p) := by unfold F0Prog; infer_instance
-
 theorem graph_f0 (p : Program) (h : F0Prog p) :
     (toSrc p).graph.nodes.toList[0]? = some (.halt evReturn) ∧
     ∀ (j : Nat) (r : Routine), p.routines[j]? = some r → ∃ e, (toSrc p).graph.entries[j]? = some (some e) ∧
